@@ -52,8 +52,7 @@ Proof. exact default_not_last_refuted. Qed.
 (* ------------------------------------------------------------ member ids *)
 
 Theorem C40_ids_sequential :
-  forall h ms, no_hashid ms = true ->
-    (s_ext h <> Mutable \/ forallb (fun m => match m_id m with None => true | _ => false end) ms = true) ->
+  forall h ms, no_hashid ms = true -> no_explicit_id ms = true ->
     struct_ids h ms = map Z.of_nat (seq 0 (length ms)).
 Proof. exact ids_sequential. Qed.
 
@@ -72,10 +71,17 @@ Theorem C40_hash_id_is_masked_md5 :
     end.
 Proof. reflexivity. Qed.
 
-Theorem C40_ids_explicit_in_mutable :
-  forall h ms k m i, s_ext h = Mutable -> nth_error ms k = Some m -> m_hashid m = false -> m_id m = Some i ->
+(* an explicit id is the member's id in every extensibility kind (fix 7ee9e78) *)
+Theorem C40_ids_explicit :
+  forall h ms k m i, nth_error ms k = Some m -> m_hashid m = false -> m_id m = Some i ->
     nth_error (struct_ids h ms) k = Some i.
-Proof. exact ids_explicit_mutable. Qed.
+Proof. exact ids_explicit. Qed.
+
+(* Final / Appendable: an un-annotated member gets its index, whatever ids precede it *)
+Theorem C40_ids_automatic_is_index_outside_mutable :
+  forall h ms k m, s_ext h <> Mutable -> nth_error ms k = Some m -> m_hashid m = false -> m_id m = None ->
+    nth_error (struct_ids h ms) k = Some (Z.of_nat k).
+Proof. exact ids_auto_is_index. Qed.
 
 (* the sequential rule: in a Mutable structure an un-annotated member that follows an
    un-hashed member gets that member's id + 1 -- the counter is reset by a LOWER explicit
@@ -92,19 +98,20 @@ Theorem C40_ids_reset_by_lower_explicit_id :
   = [10; 11; 5; 6; 7].
 Proof. exact ids_reset_example. Qed.
 
-(* deviation from the documented attribute: outside Mutable an explicit id is ignored *)
-Theorem C40_ids_explicit_ignored_outside_mutable :
-  forall h ms k m, s_ext h <> Mutable -> nth_error ms k = Some m -> m_hashid m = false ->
-    nth_error (struct_ids h ms) k = Some (Z.of_nat k).
-Proof. exact ids_explicit_ignored. Qed.
-
-(* ids_distinct: un-hashed members have pairwise distinct ids when the structure
-   is not Mutable, or when every explicit id is at least the automatic counter
+(* ids_distinct: un-hashed members have pairwise distinct ids when no id is explicit, or
+   when the structure is Mutable and every explicit id is at least the automatic counter
    (= larger than the id of the previous un-hashed member) *)
 Theorem C40_ids_distinct :
-  forall h ms, no_hashid ms = true -> (s_ext h <> Mutable \/ ids_ascending ms = true) ->
+  forall h ms, no_hashid ms = true ->
+    (no_explicit_id ms = true \/ (s_ext h = Mutable /\ ids_ascending ms = true)) ->
     NoDup (struct_ids h ms).
 Proof. exact ids_distinct_unhashed. Qed.
+
+(* in a Final/Appendable structure an explicit id can collide with the INDEX of another
+   member; the macro accepts it (finding C40-duplicate-member-ids) *)
+Theorem C40_ids_clash_explicit_vs_index :
+  struct_ids (mkS "FinalClash" None Final false false) [mk_id "a" (Some 1); mk_id "b" None] = [1; 1].
+Proof. exact ids_clash_explicit_vs_index. Qed.
 
 (* in general (hashed members included) distinctness is exactly the decidable
    test that [wf_ty] applies; the macro itself applies no test (previous section) *)
@@ -118,28 +125,37 @@ Proof. exact ids_clash_auto_after_explicit. Qed.
 
 (* ------------------------------------------- the description reflects the declaration *)
 
+(* [published hs xs]: the entries of xs that belong to members which are not non_serialized;
+   a non_serialized member is not part of the published type (fix 0840b55) *)
 Theorem C40_descriptor_reflects_struct :
-  forall h ms, exists d, describe (TStruct h ms) = Some d /\
+  forall h ms, let hs := map fst ms in
+    exists d, describe (TStruct h ms) = Some d /\
     td_kind d = K_STRUCTURE /\ td_name d = tname (s_rname h) (s_cname h) /\
     td_ext d = s_ext h /\ td_nested d = s_nested h /\ td_disc d = None /\
-    map md_name (td_members d) = names_from h 0 (map fst ms) /\
-    map md_id (td_members d) = struct_ids h (map fst ms) /\
-    map md_index (td_members d) = map Z.of_nat (seq 0 (length ms)) /\
-    map md_type (td_members d) = map (fun m => sig_of (snd m)) ms /\
-    map md_key (td_members d) = map (fun m => m_key (fst m)) ms /\
-    map md_optional (td_members d) = map (fun m => m_optional (fst m)) ms /\
-    map md_must_understand (td_members d) = map (fun m => m_key (fst m)) ms /\
-    map md_tc (td_members d) = map (fun m => tc_of (m_tc (fst m))) ms.
+    map md_name (td_members d) = published hs (names_from h 0 hs) /\
+    map md_id (td_members d) = published hs (struct_ids h hs) /\
+    map md_index (td_members d) = map Z.of_nat (seq 0 (length (published hs hs))) /\
+    map md_type (td_members d) = published hs (map (fun m => sig_of (snd m)) ms) /\
+    map md_key (td_members d) = published hs (map m_key hs) /\
+    map md_optional (td_members d) = published hs (map m_optional hs) /\
+    map md_must_understand (td_members d) = published hs (map m_key hs) /\
+    map md_tc (td_members d) = published hs (map (fun m => tc_of (m_tc m)) hs).
 Proof. exact describe_struct. Qed.
+
+Theorem C40_non_serialized_not_published :
+  forall h ms d, describe (TStruct h ms) = Some d ->
+    length (td_members d) = length (filter (fun m => negb (m_ns (fst m))) ms).
+Proof. exact non_serialized_not_published. Qed.
 
 Theorem C40_descriptor_determines_struct_attributes :
   forall h ms h' ms', describe (TStruct h ms) = describe (TStruct h' ms') ->
+    let hs := map fst ms in let hs' := map fst ms' in
     tname (s_rname h) (s_cname h) = tname (s_rname h') (s_cname h') /\ s_ext h = s_ext h' /\ s_nested h = s_nested h' /\
-    names_from h 0 (map fst ms) = names_from h' 0 (map fst ms') /\
-    map (fun m => m_key (fst m)) ms = map (fun m => m_key (fst m)) ms' /\
-    map (fun m => m_optional (fst m)) ms = map (fun m => m_optional (fst m)) ms' /\
-    map (fun m => sig_of (snd m)) ms = map (fun m => sig_of (snd m)) ms' /\
-    struct_ids h (map fst ms) = struct_ids h' (map fst ms').
+    published hs (names_from h 0 hs) = published hs' (names_from h' 0 hs') /\
+    published hs (map m_key hs) = published hs' (map m_key hs') /\
+    published hs (map m_optional hs) = published hs' (map m_optional hs') /\
+    published hs (map (fun m => sig_of (snd m)) ms) = published hs' (map (fun m => sig_of (snd m)) ms') /\
+    published hs (struct_ids h hs) = published hs' (struct_ids h' hs').
 Proof. exact describe_struct_injective_on_attributes. Qed.
 
 Theorem C40_descriptor_reflects_union :
@@ -178,7 +194,7 @@ Proof. exact enum_literals_refuted. Qed.
 Theorem C40_oracle_sound_struct :
   forall h ms d vs,
     describe (TStruct h ms) = Some d -> wf_ty (TStruct h ms) = true ->
-    kn_explicit_id_ignored (TStruct h ms) = false -> kn_ns (TStruct h ms) = false ->
+    (ser_judged (TStruct h ms) = false \/ Forall (fun p => snd p = true) vs) ->
     Forall (fun p => has_type (TStruct h ms) (fst p) = true) vs ->
     C40_oracle_ok (model_case (TStruct h ms) d vs) = true.
 Proof. exact oracle_sound_struct. Qed.
@@ -186,7 +202,6 @@ Proof. exact oracle_sound_struct. Qed.
 Theorem C40_oracle_sound_union :
   forall h vs d rs,
     describe (TUnion h vs) = Some d -> wf_ty (TUnion h vs) = true ->
-    kn_ns (TUnion h vs) = false ->
     forallb (fun v => forallb in_i32b (v_cases (fst v))) vs = true ->
     Forall (fun p => has_type (TUnion h vs) (fst p) = true) rs ->
     C40_oracle_ok (model_case (TUnion h vs) d rs) = true.
@@ -227,14 +242,16 @@ Print Assumptions C40_default_variant_not_last_breaks_roundtrip.
 Print Assumptions C40_ids_sequential.
 Print Assumptions C40_ids_hashed.
 Print Assumptions C40_hash_id_is_masked_md5.
-Print Assumptions C40_ids_explicit_in_mutable.
+Print Assumptions C40_ids_explicit.
+Print Assumptions C40_ids_automatic_is_index_outside_mutable.
 Print Assumptions C40_ids_automatic_is_previous_plus_one.
 Print Assumptions C40_ids_reset_by_lower_explicit_id.
-Print Assumptions C40_ids_explicit_ignored_outside_mutable.
 Print Assumptions C40_ids_distinct.
+Print Assumptions C40_ids_clash_explicit_vs_index.
 Print Assumptions C40_ids_distinct_decided.
 Print Assumptions C40_ids_clash_automatic_after_explicit.
 Print Assumptions C40_descriptor_reflects_struct.
+Print Assumptions C40_non_serialized_not_published.
 Print Assumptions C40_descriptor_determines_struct_attributes.
 Print Assumptions C40_descriptor_reflects_union.
 Print Assumptions C40_descriptor_reflects_enum.
